@@ -1,3 +1,265 @@
-/-! Model for property C14 (core Lean only; no Mathlib). -/
+/-! Model for property C14: `pytreenet/ttno/bipartite_graph.py` (core Lean only).
+
+* `mkGraph`               ↔ `BipartiteGraph.__init__` (asserts; adjacency lists in order of first
+                            appearance, a repeated edge entry is dropped by the `not in` tests)
+* `bfsInit/bfsScan/bfsLoop/bfs` ↔ `HopcroftKarp.__connect_unmatched_vertices` (FIFO queue that may
+                            hold the NIL vertex, the guard `dist[u] < dist[NIL]`, the `== inf_dist` test)
+* `dfs/dfsLoop`           ↔ `HopcroftKarp.__add_augmenting_path` (recursive, first successful
+                            neighbour wins, a failed vertex gets distance `inf_dist`)
+* `phase/hkLoop/hopcroftKarp` ↔ `HopcroftKarp.__call__`
+* `explore/exploreOuter/exploreInner` ↔ `_explore_alternating_paths` (visited lists per start)
+* `minimumVertexCover`    ↔ `minimum_vertex_cover` (including its `assert`)
+
+Representation.  NIL (`-1`) is `none`.  `matched_pairs_u/v` (lists initialised to NIL) are total
+functions `Nat → Option Nat` initialised to `none`; the dict `dist` is a function
+`Option Nat → Nat` (key `none` is the NIL entry `dist[-1]`).  Python would raise on a missing key /
+out-of-range index; every key that is read has been written before (all `u < num_u` and NIL are
+written by the BFS initialisation) - this is not visible in the model.  Python sets of small
+non-negative integers are modelled by strictly ascending lists, so `sorted(list(s))` is the list.
+Every recursion / `while` loop carries a fuel; exhaustion is a distinct error value. -/
 namespace Ptn.C14
+
+/-! ### Graph construction -/
+
+structure Graph where
+  nU : Nat
+  nV : Nat
+  adjU : List (List Nat)
+  adjV : List (List Nat)
+deriving Repr, DecidableEq
+
+/-- `adj_u[u]` (empty for an index that does not exist; the code never uses one). -/
+def Graph.nbrU (g : Graph) (u : Nat) : List Nat := g.adjU.getD u []
+def Graph.nbrV (g : Graph) (v : Nat) : List Nat := g.adjV.getD v []
+
+/-- `if x not in l[i]: l[i].append(x)` -/
+def addTo (l : List (List Nat)) (i x : Nat) : List (List Nat) :=
+  if x ∈ l.getD i [] then l else l.set i (l.getD i [] ++ [x])
+
+def Graph.addEdge (g : Graph) (u v : Nat) : Graph :=
+  { g with adjU := addTo g.adjU u v, adjV := addTo g.adjV v u }
+
+def Graph.empty (nU nV : Nat) : Graph :=
+  ⟨nU, nV, List.replicate nU [], List.replicate nV []⟩
+
+def addEdges : Graph → List (Nat × Nat) → Option Graph
+  | g, [] => some g
+  | g, (u, v) :: es => if u < g.nU ∧ v < g.nV then addEdges (g.addEdge u v) es else none
+
+/-- `BipartiteGraph(num_u, num_v, edges)`; `none` = an `assert` fails. -/
+def mkGraph (nU nV : Nat) (edges : List (Nat × Nat)) : Option Graph :=
+  if nU = 0 ∨ nV = 0 then none else addEdges (Graph.empty nU nV) edges
+
+/-! ### Hopcroft-Karp -/
+
+inductive Err where
+  | fuelBfs | fuelDfs | fuelOuter | fuelExplore | assertion
+deriving Repr, DecidableEq
+
+/-- Functional update `f[i] = a`. -/
+def upd {α β : Type} [DecidableEq α] (f : α → β) (i : α) (a : β) : α → β :=
+  fun j => if j = i then a else f j
+
+structure HK where
+  mU : Nat → Option Nat          -- matched_pairs_u
+  mV : Nat → Option Nat          -- matched_pairs_v
+  dist : Option Nat → Nat        -- dist (key none = NIL)
+
+def HK.init : HK := ⟨fun _ => none, fun _ => none, fun _ => 0⟩
+
+/-- `inf_dist = num_u + 1` -/
+def Graph.inf (g : Graph) : Nat := g.nU + 1
+
+/-- `adj_u[x]` for a queue entry `x`; for NIL Python's index `-1` addresses the last list
+    (dead code: the guard `dist[-1] < dist[-1]` is false). -/
+def Graph.nbrOf (g : Graph) : Option Nat → List Nat
+  | none => g.adjU.getLastD []
+  | some u => g.nbrU u
+
+structure BfsSt where
+  dist : Option Nat → Nat
+  queue : List (Option Nat)
+
+/-- The `for u in range(num_u)` initialisation followed by `dist[-1] = inf_dist`. -/
+def bfsInit (g : Graph) (mU : Nat → Option Nat) (dist : Option Nat → Nat) : BfsSt :=
+  let st := (List.range g.nU).foldl (fun (st : BfsSt) u =>
+      if mU u = none then ⟨upd st.dist (some u) 0, st.queue ++ [some u]⟩
+      else ⟨upd st.dist (some u) g.inf, st.queue⟩) ⟨dist, []⟩
+  ⟨upd st.dist none g.inf, st.queue⟩
+
+/-- `for v in adj_u[u]: if dist[mV[v]] == inf: dist[mV[v]] = dist[u] + 1; queue.put(mV[v])` -/
+def bfsScan (g : Graph) (mV : Nat → Option Nat) (x : Option Nat) : List Nat → BfsSt → BfsSt
+  | [], st => st
+  | v :: vs, st =>
+    if st.dist (mV v) = g.inf then
+      bfsScan g mV x vs ⟨upd st.dist (mV v) (st.dist x + 1), st.queue ++ [mV v]⟩
+    else bfsScan g mV x vs st
+
+/-- `while not queue.empty()`; `none` = fuel exhausted. -/
+def bfsLoop (g : Graph) (mV : Nat → Option Nat) : Nat → BfsSt → Option (Option Nat → Nat)
+  | _, ⟨dist, []⟩ => some dist
+  | 0, ⟨_, _ :: _⟩ => none
+  | f + 1, ⟨dist, x :: q⟩ =>
+    if dist x < dist none then bfsLoop g mV f (bfsScan g mV x (g.nbrOf x) ⟨dist, q⟩)
+    else bfsLoop g mV f ⟨dist, q⟩
+
+/-- Fuel of the BFS queue loop: every vertex and NIL enters the queue at most once. -/
+def Graph.bfsFuel (g : Graph) : Nat := g.nU + 2
+
+/-- `__connect_unmatched_vertices`: the new `dist`; the return value is `dist[-1] != inf_dist`. -/
+def bfs (g : Graph) (s : HK) : Option (Option Nat → Nat) :=
+  bfsLoop g s.mV g.bfsFuel (bfsInit g s.mU s.dist)
+
+/-- Body of `__add_augmenting_path(u)` for `u != -1`: the loop over `adj_u[u]`;
+    `rec` is the recursive call. -/
+def dfsLoop (g : Graph) (rec : Option Nat → HK → Option (Bool × HK)) (u : Nat) :
+    List Nat → HK → Option (Bool × HK)
+  | [], s => some (false, { s with dist := upd s.dist (some u) g.inf })
+  | v :: vs, s =>
+    if s.dist (s.mV v) = s.dist (some u) + 1 then
+      match rec (s.mV v) s with
+      | none => none
+      | some (true, s') => some (true, { s' with mV := upd s'.mV v (some u), mU := upd s'.mU u (some v) })
+      | some (false, s') => dfsLoop g rec u vs s'
+    else dfsLoop g rec u vs s
+
+/-- `__add_augmenting_path`; first argument is fuel (recursion depth), `none` = exhausted. -/
+def dfs (g : Graph) : Nat → Option Nat → HK → Option (Bool × HK)
+  | _, none, s => some (true, s)
+  | 0, some _, _ => none
+  | f + 1, some u, s => dfsLoop g (dfs g f) u (g.nbrU u) s
+
+/-- Recursion depth: distances strictly increase along the recursion and never exceed `inf`. -/
+def Graph.dfsFuel (g : Graph) : Nat := g.nU + 3
+
+/-- `for u in range(num_u): if matched_pairs_u[u] == -1: add_augmenting_path(u)` -/
+def phase (g : Graph) : List Nat → HK → Option HK
+  | [], s => some s
+  | u :: us, s =>
+    if s.mU u = none then
+      match dfs g g.dfsFuel (some u) s with
+      | none => none
+      | some (_, s') => phase g us s'
+    else phase g us s
+
+/-- `while connect_unmatched_vertices(): …` -/
+def hkLoop (g : Graph) : Nat → HK → Except Err HK
+  | 0, _ => .error .fuelOuter
+  | f + 1, s =>
+    match bfs g s with
+    | none => .error .fuelBfs
+    | some d =>
+      if d none ≠ g.inf then
+        match phase g (List.range g.nU) { s with dist := d } with
+        | none => .error .fuelDfs
+        | some s' => hkLoop g f s'
+      else .ok { s with dist := d }
+
+/-- Every successful BFS is followed by at least one augmentation, and a matching has at most
+    `num_u` edges. -/
+def Graph.outerFuel (g : Graph) : Nat := g.nU + 2
+
+/-- `matching = [(u, mU[u]) for u in range(num_u) if mU[u] != -1]` -/
+def collect (mU : Nat → Option Nat) (n : Nat) : List (Nat × Nat) :=
+  (List.range n).filterMap fun u => (mU u).map fun v => (u, v)
+
+def hkRun (g : Graph) : Except Err HK := hkLoop g g.outerFuel HK.init
+
+/-- `HopcroftKarp(graph)()` -/
+def hopcroftKarp (g : Graph) : Except Err (List (Nat × Nat)) :=
+  match hkRun g with
+  | .error e => .error e
+  | .ok s => .ok (collect s.mU g.nU)
+
+/-! ### Koenig construction -/
+
+structure Vis where
+  uVis : List Nat
+  vVis : List Nat
+deriving Repr, DecidableEq
+
+/-- `for u in adj_v[v]: if (u, v) in matching: explore(u)` -/
+def exploreInner (rec : Nat → Vis → Option Vis) (M : List (Nat × Nat)) (v : Nat) :
+    List Nat → Vis → Option Vis
+  | [], st => some st
+  | u :: us, st =>
+    if (u, v) ∈ M then
+      match rec u st with
+      | none => none
+      | some st' => exploreInner rec M v us st'
+    else exploreInner rec M v us st
+
+/-- `for v in adj_u[u_start]: if (u_start, v) not in matching: …` -/
+def exploreOuter (g : Graph) (rec : Nat → Vis → Option Vis) (M : List (Nat × Nat)) (u : Nat) :
+    List Nat → Vis → Option Vis
+  | [], st => some st
+  | v :: vs, st =>
+    if (u, v) ∉ M then
+      if v ∈ st.vVis then exploreOuter g rec M u vs st
+      else
+        match exploreInner rec M v (g.nbrV v) { st with vVis := st.vVis ++ [v] } with
+        | none => none
+        | some st' => exploreOuter g rec M u vs st'
+    else exploreOuter g rec M u vs st
+
+/-- `_explore_alternating_paths`; first argument is fuel, `none` = exhausted. -/
+def explore (g : Graph) (M : List (Nat × Nat)) : Nat → Nat → Vis → Option Vis
+  | f, u, st =>
+    if u ∈ st.uVis then some st
+    else match f with
+      | 0 => none
+      | f + 1 => exploreOuter g (explore g M f) M u (g.nbrU u) { st with uVis := st.uVis ++ [u] }
+
+/-- Every non-trivial call appends a new left vertex to `u_visited`. -/
+def Graph.exploreFuel (g : Graph) : Nat := g.nU + 1
+
+/-- `set.add` on the ascending-list representation. -/
+def setInsert (x : Nat) : List Nat → List Nat
+  | [] => [x]
+  | y :: ys => if x < y then x :: y :: ys else if x = y then y :: ys else y :: setInsert x ys
+
+/-- `alist`: `set(range(num_u))` minus the matched left vertices. -/
+def freeLeft (g : Graph) (M : List (Nat × Nat)) : List Nat :=
+  (List.range g.nU).filter fun u => !(M.any fun p => p.1 == u)
+
+/-- The `for u in alist` loop on `(u_cover, v_cover)`. -/
+def coverLoop (g : Graph) (M : List (Nat × Nat)) :
+    List Nat → List Nat × List Nat → Option (List Nat × List Nat)
+  | [], c => some c
+  | u :: us, (cu, cv) =>
+    match explore g M g.exploreFuel u ⟨[], []⟩ with
+    | none => none
+    | some st =>
+      coverLoop g M us (cu.filter (fun x => !(st.uVis.contains x)), st.vVis.foldl (fun c v => setInsert v c) cv)
+
+/-- The part of `minimum_vertex_cover` after the matching has been computed. -/
+def coverOf (g : Graph) (M : List (Nat × Nat)) : Except Err (List Nat × List Nat) :=
+  match coverLoop g M (freeLeft g M) (List.range g.nU, []) with
+  | none => .error .fuelExplore
+  | some (cu, cv) => if cu.length + cv.length = M.length then .ok (cu, cv) else .error .assertion
+
+/-- `minimum_vertex_cover(graph)`, returning the internal matching as well. -/
+def minimumVertexCover (g : Graph) : Except Err (List (Nat × Nat) × List Nat × List Nat) :=
+  match hopcroftKarp g with
+  | .error e => .error e
+  | .ok M =>
+    match coverOf g M with
+    | .error e => .error e
+    | .ok c => .ok (M, c.1, c.2)
+
+/-! ### Decidable certificate (checker) -/
+
+/-- All edges of the graph as pairs. -/
+def Graph.edges (g : Graph) : List (Nat × Nat) :=
+  (List.range g.nU).flatMap fun u => (g.nbrU u).map fun v => (u, v)
+
+/-- `M` is a set of pairwise vertex-disjoint edges of `g`, `(cu, cv)` touches every edge and contains
+    only existing vertices, and the sizes agree. -/
+def certificateOk (g : Graph) (M : List (Nat × Nat)) (cu cv : List Nat) : Bool :=
+  M.all (fun p => (g.nbrU p.1).contains p.2) &&
+  decide (M.map Prod.fst).Nodup && decide (M.map Prod.snd).Nodup &&
+  g.edges.all (fun p => cu.contains p.1 || cv.contains p.2) &&
+  cu.all (fun u => decide (u < g.nU)) && cv.all (fun v => decide (v < g.nV)) &&
+  decide (cu.length + cv.length = M.length)
+
 end Ptn.C14
